@@ -4,6 +4,7 @@ import (
 	"go/constant"
 	"go/token"
 	"go/types"
+	"sort"
 
 	"golang.org/x/tools/go/ssa"
 
@@ -38,6 +39,7 @@ func (c *Ctx) packetTypes() map[string]int64 {
 // its arms.
 func (c *Ctx) dispatch(fn *ssa.Function) []dispatchArm {
 	var arms []dispatchArm
+	testBlocks := map[*ssa.BasicBlock]bool{}
 	for _, b := range c.regionBlocks(fn) {
 		if len(b.Instrs) == 0 {
 			continue
@@ -77,8 +79,122 @@ func (c *Ctx) dispatch(fn *ssa.Function) []dispatchArm {
 			}
 		}
 		arms = append(arms, arm)
+		testBlocks[b] = true
 	}
+	// a default arm that looks the error up in a table indexed by the packet
+	// type — err = table[head>>4] with table a package-level array that only
+	// its initialiser writes — stands for one arm per non-nil element
+	have := map[int64]bool{}
+	for _, a := range arms {
+		have[a.Type] = true
+	}
+	for b := range testBlocks {
+		d := b.Succs[1]
+		if testBlocks[d] {
+			continue
+		}
+		for _, ins := range d.Instrs {
+			ia, ok := ins.(*ssa.IndexAddr)
+			if !ok {
+				continue
+			}
+			g, ok := ia.X.(*ssa.Global)
+			if !ok {
+				continue
+			}
+			sh, ok := strip(ia.Index).(*ssa.BinOp)
+			if !ok || sh.Op != token.SHR {
+				continue
+			}
+			if n, ok := intConst(sh.Y); !ok || n != 4 {
+				continue
+			}
+			tab, ok := c.constTable(g)
+			if !ok {
+				continue
+			}
+			for k, v := range tab {
+				if have[k] {
+					continue
+				}
+				if u, ok := v.(*ssa.UnOp); ok && u.Op == token.MUL {
+					if sg, ok := u.X.(*ssa.Global); ok {
+						arms = append(arms, dispatchArm{Type: k, Sentinel: sg, Pos: ia.Pos()})
+						have[k] = true
+					}
+				}
+			}
+		}
+	}
+	sort.SliceStable(arms, func(i, j int) bool { return arms[i].Type < arms[j].Type })
 	return arms
+}
+
+// constTable returns the elements the initialiser of a package-level array
+// stores at constant indexes, provided nothing else in the package writes
+// the array or lets its address escape.
+func (c *Ctx) constTable(g *ssa.Global) (map[int64]ssa.Value, bool) {
+	if _, ok := g.Type().(*types.Pointer).Elem().Underlying().(*types.Array); !ok {
+		return nil, false
+	}
+	out := map[int64]ssa.Value{}
+	pkgInit := c.P.Root.Func("init")
+	for _, fn := range c.funcs { // (the package initialiser is among them)
+		isInit := fn == pkgInit
+		for _, b := range fn.Blocks {
+			for _, ins := range b.Instrs {
+				uses := false
+				for _, op := range ins.Operands(nil) {
+					if op != nil && *op == ssa.Value(g) {
+						uses = true
+					}
+				}
+				if !uses {
+					continue
+				}
+				ia, ok := ins.(*ssa.IndexAddr)
+				if !ok {
+					// a load of the whole array is a read; anything else may write
+					if u, ok := ins.(*ssa.UnOp); ok && u.Op == token.MUL {
+						continue
+					}
+					// the initialiser builds a composite literal in a local
+					// and stores it as a whole
+					if st, ok := ins.(*ssa.Store); ok && isInit && st.Addr == ssa.Value(g) && len(out) == 0 {
+						if lit, ok := c.litElems(st.Val); ok {
+							out = lit
+							continue
+						}
+					}
+					return nil, false
+				}
+				for _, r := range *ia.Referrers() {
+					switch r := r.(type) {
+					case *ssa.UnOp:
+						if r.Op != token.MUL {
+							return nil, false
+						}
+					case *ssa.Store:
+						if r.Addr != ssa.Value(ia) || !isInit {
+							return nil, false
+						}
+						k, ok := intConst(ia.Index)
+						if !ok {
+							return nil, false
+						}
+						if _, dup := out[k]; dup {
+							return nil, false
+						}
+						out[k] = r.Val
+					case *ssa.DebugRef:
+					default:
+						return nil, false
+					}
+				}
+			}
+		}
+	}
+	return out, true
 }
 
 // handlers returns the dispatch handlers keyed by packet type constant name.
@@ -98,4 +214,45 @@ func (c *Ctx) handlers(rule string) map[string]*ssa.Function {
 		}
 	}
 	return out
+}
+
+// litElems: the elements of an array composite literal, from the value that
+// loads the finished literal.
+func (c *Ctx) litElems(v ssa.Value) (map[int64]ssa.Value, bool) {
+	u, ok := v.(*ssa.UnOp)
+	if !ok || u.Op != token.MUL {
+		return nil, false
+	}
+	al, ok := u.X.(*ssa.Alloc)
+	if !ok {
+		return nil, false
+	}
+	out := map[int64]ssa.Value{}
+	for _, r := range *al.Referrers() {
+		switch r := r.(type) {
+		case *ssa.UnOp:
+			if r != u {
+				return nil, false
+			}
+		case *ssa.IndexAddr:
+			k, ok := intConst(r.Index)
+			if !ok {
+				return nil, false
+			}
+			for _, rr := range *r.Referrers() {
+				st, ok := rr.(*ssa.Store)
+				if !ok || st.Addr != ssa.Value(r) {
+					return nil, false
+				}
+				if _, dup := out[k]; dup {
+					return nil, false
+				}
+				out[k] = st.Val
+			}
+		case *ssa.DebugRef:
+		default:
+			return nil, false
+		}
+	}
+	return out, true
 }
